@@ -459,3 +459,38 @@ Theorem C18_source_script_platform_guard :
     G.script_platform_guard st p && match flt with Some f => f (MSc.mkq id (is_host p)) | None => true end.
 Proof. exact gen_script_platform_guard_is_model. Qed.
 Print Assumptions C18_source_script_platform_guard.
+
+(* ---- spawn-time set-up (C15; C09 / C11 for the process group; C16 / C08 for the streams) *)
+
+(* what the model asks of the set-up gives the property's sentences, for EVERY capture strategy *)
+Theorem C15_setup_ok_stdin_and_group :
+  forall cap t, MSp.setup_ok cap t = true -> MSp.stdin_null t = true /\ MSp.own_process_group t = true.
+Proof. exact PSp.setup_ok_stdin_and_group. Qed.
+Print Assumptions C15_setup_ok_stdin_and_group.
+
+(* its variable list is Model/Command.v's executor_layer, which [test_assignments] (C15_nextest_vars_win ...) puts after
+   the make_command assignments (cargo [env] included) and before the setup-script variables *)
+Theorem C15_setup_env_keys_are_executor_layer :
+  forall r a, map NextestModel.Model.Command.K.s MSp.executor_env_keys =
+              map fst (NextestModel.Model.Command.executor_layer r a).
+Proof. exact PSp.executor_env_keys_are_executor_layer. Qed.
+Print Assumptions C15_setup_env_keys_are_executor_layer.
+
+(* C15 on the source text: the ordered list of calls ExecutorContext::run_test_inner makes on the Command --
+   following os::set_process_group, TestCommand::spawn and test_command::imp::spawn, each call under the condition it
+   is made -- regenerated from the source satisfies [MSp.setup_ok] for every capture strategy: the command comes from
+   make_command, then exactly the five executor_layer variables in order, then the setup-script variables, stdin is the
+   null device and the child leads its own process group whatever the capture strategy, stdout / stderr are left alone
+   with --no-capture and piped otherwise, and the spawn comes last. Folding stdin into the capture-strategy match and
+   forgetting the None arm, or making process_group(0) conditional on capture, falsifies it. *)
+Theorem C15_source_spawn_setup :
+  forall cap, MSp.setup_ok (cap_to_model cap) (G.run_test_inner_setup cap) = true.
+Proof. exact gen_spawn_setup_is_model. Qed.
+Print Assumptions C15_source_spawn_setup.
+
+(* C09 / C11 (signals go to the test's process group) and C15: the two unconditional calls, spelled out *)
+Theorem C15_source_spawn_stdin_and_group :
+  forall cap,
+    MSp.stdin_null (G.run_test_inner_setup cap) = true /\ MSp.own_process_group (G.run_test_inner_setup cap) = true.
+Proof. exact gen_spawn_setup_stdin_and_group. Qed.
+Print Assumptions C15_source_spawn_stdin_and_group.
